@@ -8,7 +8,8 @@
    and at paths no other rank uses, app_state keys non-empty, one id per private leaf).  The harness evaluates it
    on every real gathered manifest of a run. *)
 From TS Require Import model.Base model.Flatten model.ManifestOps proofs.FlattenProofs proofs.ManifestOpsProofs
-  gen.ManifestOpsGen proofs.ManifestOpsInst.
+  gen.ManifestOpsGen proofs.ManifestOpsInst
+  model.ManifestPy model.ManifestOpsGenObs proofs.ManifestPySim proofs.ManifestOpsGenInst.
 From Coq Require Import Permutation.
 
 (* get_manifest_for_rank never raises on a well-formed manifest, for any rank index (existing or new). *)
@@ -132,6 +133,137 @@ Theorem C07_key_expressions_gen_are_model :
                 (MCont (EDict ord (ks ++ [KStr (elastic_key_gen (last p []))]))))).
 Proof. split; [exact removed_key_gen_is_model | exact elastic_key_gen_is_model]. Qed.
 Print Assumptions C07_key_expressions_gen_are_model.
+
+(* ---- the functions regenerated STATEMENT BY STATEMENT from the current source --------------------------------- *)
+(* gen/ManifestOpsGen.v holds, rewritten on every run by translator/gen_manifest_ops.py, the whole of manifest_ops.py
+   (get_manifest_for_rank, _get_rank_to_manifest incl. copy.deepcopy, _get_manifest_for_existing_rank,
+   _get_manifest_for_new_rank, _remove_entry, _get_merged_sharded_tensor_entries, _get_merged_dtensor_entries,
+   handle_sharded_tensor_elasticity) and the predicates of manifest_utils.py, over the Python-object vocabulary of
+   model/ManifestPy.v: global paths are strings, dicts are insertion-ordered association lists of entry ADDRESSES,
+   entry objects live in a heap ([M A] = heap -> option A * heap; None = an exception).
+   [meta_ok md h]: the entries of the metadata object are pairwise distinct objects of the heap h, of classes the hand
+   model knows (no DTensorEntry).  [absG h md] reads the metadata as the hand model's gathered manifest (rank prefix
+   parsed as int() does, the logical path split at "/").  [gen_view] / [gen_load_view] run the generated
+   get_manifest_for_rank (then handle_sharded_tensor_elasticity, knob off) and read the result through the same
+   abstraction. *)
+
+(* Computing any sequence of views - get_manifest_for_rank for any rank index, each followed by
+   handle_sharded_tensor_elasticity with any requests, either knob setting, whether or not a call raises - from ONE
+   metadata object leaves every entry object of that metadata as it was.  No well-formedness is assumed.  (What makes
+   this true is copy.deepcopy in _get_rank_to_manifest: the proof walks the generated statements and needs every heap
+   write to go through a value obtained from the deep copy or from a constructor.) *)
+Theorem C07_generated_views_do_not_mutate_metadata : forall knob md h qs,
+  (forall k a, In (k, a) (pm_manifest md) -> (a < length h)%nat) ->
+  meta_items md (snd (run_queries knob md qs h)) = meta_items md h.
+Proof. exact generated_views_do_not_mutate_metadata. Qed.
+Print Assumptions C07_generated_views_do_not_mutate_metadata.
+
+(* On well-formed metadata the generated functions compute exactly the hand model: the view of every rank index,
+   and the view after elasticity for every request list (requests are strings; the model sees them split at "/"). *)
+Theorem C07_generated_view_is_model : forall md h r, meta_ok md h ->
+  wf_global (pm_world_size md) (absG h md) -> 0 <= r ->
+  gen_view md h r = get_manifest_for_rank (pm_world_size md) (absG h md) r.
+Proof. exact generated_view_is_model. Qed.
+Print Assumptions C07_generated_view_is_model.
+
+Theorem C07_generated_load_view_is_model : forall md h r reqs, meta_ok md h ->
+  wf_global (pm_world_size md) (absG h md) -> 0 <= r ->
+  gen_load_view md h r reqs = load_view (pm_world_size md) (absG h md) r (map split reqs).
+Proof. exact generated_load_view_is_model. Qed.
+Print Assumptions C07_generated_load_view_is_model.
+
+(* ... hence the property theorems above hold of the generated functions *)
+Theorem C07_generated_view_defined : forall md h, meta_ok md h -> wf_global (pm_world_size md) (absG h md) ->
+  forall r', 0 <= r' -> exists m, gen_view md h r' = Some m.
+Proof.
+  intros md h MO WF r' Hr. rewrite (generated_view_is_model md h r' MO WF Hr). exact (get_defined _ _ WF r').
+Qed.
+Print Assumptions C07_generated_view_defined.
+
+Theorem C07_generated_replicated_visible_everywhere : forall md h, meta_ok md h ->
+  wf_global (pm_world_size md) (absG h md) ->
+  forall r p i, In (r, p, MRepl i) (absG h md) ->
+  forall r', 0 <= r' -> exists m, gen_view md h r' = Some m /\ mget m p = Some (MRepl i).
+Proof.
+  intros md h MO WF r p i Hin r' Hr. rewrite (generated_view_is_model md h r' MO WF Hr).
+  exact (replicated_visible_everywhere _ _ WF r p i Hin r' Hr).
+Qed.
+Print Assumptions C07_generated_replicated_visible_everywhere.
+
+Theorem C07_generated_private_only_to_owner : forall md h, meta_ok md h ->
+  wf_global (pm_world_size md) (absG h md) ->
+  forall r p i, In (r, p, MPriv i) (absG h md) ->
+  forall r' m, 0 <= r' -> gen_view md h r' = Some m ->
+    (r' = r -> mget m p = Some (MPriv i)) /\
+    (forall p', mget m p' = Some (MPriv i) -> r' = r /\ p' = p).
+Proof.
+  intros md h MO WF r p i Hin r' m Hr E. rewrite (generated_view_is_model md h r' MO WF Hr) in E.
+  exact (private_only_to_owner _ _ WF r p i Hin r' m Hr E).
+Qed.
+Print Assumptions C07_generated_private_only_to_owner.
+
+Theorem C07_generated_sharded_merged : forall md h, meta_ok md h ->
+  wf_global (pm_world_size md) (absG h md) ->
+  forall r' m p s, 0 <= r' -> gen_view md h r' = Some m -> mget m p = Some (MShard s) ->
+    s = merged_shards (pm_world_size md) (absG h md) p /\
+    Permutation s (all_shards (pm_world_size md) (absG h md) p) /\ sorted_shards s /\
+    r' < pm_world_size md /\ exists s0, In (r', p, MShard s0) (absG h md).
+Proof.
+  intros md h MO WF r' m p s Hr E. rewrite (generated_view_is_model md h r' MO WF Hr) in E.
+  exact (sharded_visible_is_merged _ _ WF r' m p s Hr E).
+Qed.
+Print Assumptions C07_generated_sharded_merged.
+
+Theorem C07_generated_sharded_present_iff_requested : forall md h, meta_ok md h ->
+  wf_global (pm_world_size md) (absG h md) ->
+  forall r' reqs m m' p, 0 <= r' ->
+    gen_view md h r' = Some m -> gen_load_view md h r' reqs = Some m' ->
+    merged_has (pm_world_size md) (absG h md) p = true -> (forall e, mget m p = Some e -> is_sharded e = true) ->
+    (In p (map split reqs) -> mget m' p = Some (MShard (merged_shards (pm_world_size md) (absG h md) p))) /\
+    (~ In p (map split reqs) -> mget m' p = None).
+Proof.
+  intros md h MO WF r' reqs m m' p Hr E1 E2 HM HS.
+  rewrite (generated_view_is_model md h r' MO WF Hr) in E1.
+  rewrite (generated_load_view_is_model md h r' reqs MO WF Hr) in E2. unfold load_view in E2. rewrite E1 in E2.
+  destruct (sharded_present_iff_requested _ _ WF r' (map split reqs) m m' p Hr E1 E2 HM HS) as (A & B & _). split; assumption.
+Qed.
+Print Assumptions C07_generated_sharded_present_iff_requested.
+
+Theorem C07_generated_containers_preserved : forall md h, meta_ok md h ->
+  wf_global (pm_world_size md) (absG h md) ->
+  (forall r' p c, 0 <= r' < pm_world_size md -> In (r', p, MCont c) (absG h md) ->
+     exists m, gen_view md h r' = Some m /\ mget m p = Some (MCont c)) /\
+  (forall r' m p c, pm_world_size md <= r' -> 0 <= r' -> gen_view md h r' = Some m -> In (0, p, MCont c) (absG h md) ->
+     mget m p = Some (MCont (match c with
+                             | EList => EList
+                             | EDict ord ks =>
+                                 EDict ord (filter (fun k => negb (str_memb (key_str k)
+                                     (map decode (withheld_tokens (rank_manifest (absG h md) 0) p)))) ks)
+                             end))).
+Proof.
+  intros md h MO WF. split.
+  - intros r' p c Hr Hin. exists (manifest_for_existing_rank (pm_world_size md) (absG h md) r'). split.
+    + rewrite (generated_view_is_model md h r' MO WF (proj1 Hr)). unfold get_manifest_for_rank, is_existing_rank.
+      destruct (r' <? pm_world_size md) eqn:E; [reflexivity | lia].
+    + exact (containers_existing _ _ WF r' p c Hin).
+  - intros r' m p c Hw Hr E Hin. rewrite (generated_view_is_model md h r' MO WF Hr) in E.
+    exact (proj1 (containers_new_rank _ _ WF r' m p c Hw E Hin)).
+Qed.
+Print Assumptions C07_generated_containers_preserved.
+
+(* the generated terms on the W = 2 snapshot of the examples below, written as the metadata object the code sees:
+   global path strings "<rank>/<logical path>" and one entry object per item *)
+Definition C07_conc_entry (e : mentry) : pentry :=
+  match e with
+  | MCont EList => mkE Dispatch.EList [] false [] [] ([], []) 0
+  | MCont (EDict false ks) => mkE Dispatch.EDict ks false [] [] ([], []) 0
+  | MCont (EDict true ks) => mkE Dispatch.EOrderedDict ks false [] [] ([], []) 0
+  | MRepl i => mkE Dispatch.ETensor [] true [] [] ([], []) i
+  | MPriv i => mkE Dispatch.EObject [] false [] [] ([], []) i
+  | MShard s => mkE Dispatch.ESharded [] false s [] ([], []) 0
+  end.
+Definition C07_conc (g : gman) : list (pystr * pentry) :=
+  map (fun x => (str_of_Z (grank x) ++ 47 :: join (gpath x), C07_conc_entry (gentry x))) g.
 
 (* ---- the code before the fix commits, refuted ------------------------------------------------------------------ *)
 Definition C07_m : token := [109].
@@ -258,3 +390,19 @@ Proof. vm_compute. reflexivity. Qed.
 
 Example C07_example_legacy_new_rank_raises : get_manifest_for_rank_legacy 2 C07_g 2 = None.
 Proof. vm_compute. reflexivity. Qed.
+
+(* the generated functions on the same snapshot: the metadata object abstracts to C07_g, is well formed, the generated
+   views equal the model's (existing ranks, a new rank, a new rank requesting the sharded tensor), and after a
+   sequence of views - new rank first, with elasticity - the metadata object still holds exactly its items *)
+Example C07_generated_example :
+  let md := fst (load_meta 2 (C07_conc C07_g)) in
+  let h := snd (load_meta 2 (C07_conc C07_g)) in
+  absG h md = C07_g /\
+  gen_view md h 0 = get_manifest_for_rank 2 C07_g 0 /\
+  gen_view md h 1 = get_manifest_for_rank 2 C07_g 1 /\
+  gen_view md h 2 = get_manifest_for_rank 2 C07_g 2 /\
+  gen_load_view md h 2 [join [C07_m; C07_s]] = load_view 2 C07_g 2 [[C07_m; C07_s]] /\
+  gen_load_view md h 1 [] = load_view 2 C07_g 1 [] /\
+  meta_items md (snd (run_queries false md [(2, [join [C07_m; C07_s]]); (3, []); (0, []); (1, [])] h)) = C07_conc C07_g.
+Proof. vm_compute. split; [reflexivity|]. split; [reflexivity|]. split; [reflexivity|]. split; [reflexivity|].
+  split; [reflexivity|]. split; reflexivity. Qed.
